@@ -17,12 +17,19 @@
      * the per-segment block of read_quantization_indices (places read as parameters, places written as results) computes the
        reference's six dequantisation factors (Spec.VP8.segment_quant: table lookups at clamped indices, y2dc * 2,
        y2ac * 155 / 100 with floor 8, uvdc capped at 132) for every header the bitstream can express, without overflow.
-   NOT proved (the two structural links of DESIGN.md section 6 C02: interleaved parsing with contexts = AST parse, workspace /
-   border bookkeeping = frame-addressed reconstruction and per-macroblock filter traversal): decided on every run by the
+     * (module P) the parsing functions of vp8.rs, modelled one to one in Model/Vp8Parse.v on top of the boolean-decoder model of C15
+       and tied to the code by the vp8parse correspondence, equal the reference parser function by function: read_coefficients =
+       get_coeffs, read_macroblock_header = parse_mb_mode, the quantiser / loop-filter / segmentation / probability blocks of the
+       frame header, read_residual_data = parse_residuals + inverse transforms for both kinds of non-skipped macroblock.
+   NOT proved: the chaining of these function-level theorems into one frame-level statement (the scalar reads and byte framing of
+   read_frame_header, the skipped-macroblock branch inlined in decode_frame_), intra prediction, and the workspace / border
+   bookkeeping = frame-addressed reconstruction and per-macroblock filter traversal: decided on every run by the
    whole-frame correspondence implementation = Spec.VP8.decode on generated key frames (harness c02), and on libwebp. *)
 From Coq Require Import ZArith List Lia.
 From WebP Require Import Gen.Tables Gen.Kernels Lib.ZBits Lib.Arr Spec.VP8Tables Spec.VP8 Proofs.VP8_tables Proofs.VP8_kernels
   Proofs.VP8_arraykernels_aux Proofs.VP8_arraykernels Proofs.VP8_filter_params Proofs.VP8_quant.
+From WebP Require Lib.Res Spec.BoolDec Model.ArithDec Model.Vp8Parse Proofs.C15_model Proofs.VP8_parse_base Proofs.VP8_parse_coeffs Proofs.VP8_parse_mbheader
+  Proofs.VP8_parse_header Proofs.VP8_parse_residual Proofs.VP8_parse_refuted.
 Import ListNotations.
 Open Scope Z_scope.
 
@@ -131,3 +138,311 @@ Theorem dequantisation_refine : forall (h : header) (seg : Z),
   /\ segment_quantizers_ok (h_base_q h) (h_dqy1_dc h) (h_dqy2_dc h) (h_dqy2_ac h) (h_dquv_dc h) (h_dquv_ac h)
                      (h_use_segment h) (negb (h_absolute h)) (nthZ (h_seg_quant h) seg 0) = true.
 Proof. exact segment_quant_refine. Qed.
+
+(* ---------------- parsing functions of vp8.rs (Model/Vp8Parse.v, tied to the code by the vp8parse correspondence through hooks on a real
+   Vp8Decoder: 5800 component cases quick / 188000 thorough) = the reference parser of Spec.VP8, function by function.  Shape of every theorem: from
+   linked reader states, either the Model function returns Ok with exactly the reference's values and the states are linked again, or it returns
+   BitStreamError and the reference run has read beyond the partition (truncated data). ---------------- *)
+Module P.
+  Import Lib.Res Lib.ZBits Gen.Kernels Spec.VP8 Spec.VP8Tables Spec.BoolDec Model.ArithDec Model.Vp8Parse
+    Proofs.VP8_tables Proofs.VP8_quant Proofs.VP8_parse_base Proofs.VP8_parse_coeffs Proofs.VP8_parse_mbheader Proofs.VP8_parse_header
+    Proofs.VP8_parse_residual Proofs.VP8_parse_refuted.
+
+  (* a partition whose first byte is not 0xFF (hypothesis of C15): the reference boolean decoder state and the Rust decoder model start linked *)
+  Theorem linked_init :
+    forall data : list Z,
+           Forall byte data ->
+           C15_model.len data < 2 ^ 63 ->
+           nth 0 data 0 <> 255 -> exists d0 : Dec, init (chunks_of data) (C15_model.len data) = Ok d0 /\ linked data (bd_init data) d0.
+  Proof. exact VP8_parse_base.linked_init. Qed.
+
+  (* read_coefficients = the reference token reading get_coeffs: every probability table, context, i16 quantiser pair, both first positions; same dequantised coefficients at the same raster positions, same flag, same final reader state, no panic; or BitStreamError exactly when the reference over-reads *)
+  Theorem read_coefficients_refines :
+    forall data : list Z,
+           Forall byte data ->
+           C15_model.len data < 2 ^ 63 ->
+           forall (v : Vp8) (probs4 : list (list (list (list Z)))) (p plane complexity dcq acq : Z) (s : bstate) (d : Dec),
+           tables_ok probs4 ->
+           token_nodes_of probs4 = Ok (v_token_probs v) ->
+           0 <= plane <= 3 ->
+           0 <= complexity <= 2 ->
+           i16 dcq ->
+           i16 acq ->
+           0 <= p ->
+           nth_error (v_partitions v) (Z.to_nat p) = Some d ->
+           linked data s d ->
+           let first := if plane =? 0 then 1 else 0 in
+           let
+           '(coeffs, nz, _, s') := get_coeffs (nthZ probs4 plane []) complexity dcq acq first s in
+            (exists d' : Dec,
+               read_coefficients v zero16 p plane complexity dcq acq = Ok (first <? nz, coeffs, set_partitions v (updZ (v_partitions v) p d')) /\
+               linked data s' d') \/ read_coefficients v zero16 p plane complexity dcq acq = Err EBitStreamError /\ over_read data s'.
+  Proof. exact VP8_parse_coeffs.read_coefficients_refines. Qed.
+
+  (* read_macroblock_header = the reference mode parsing of one macroblock (segment id, skip flag, luma mode, 16 sub-block modes with above / left contexts and their updates, chroma mode), modulo the bijective mode renumberings of the table theorems *)
+  Theorem read_macroblock_header_refines :
+    forall data : list Z,
+           Forall byte data ->
+           C15_model.len data < 2 ^ 63 ->
+           forall (h : header) (v : Vp8) (mbx : Z) (t : MacroBlock) (s : bstate),
+           mbh_header_rel h v ->
+           0 <= mbx ->
+           nth_error (v_top v) (Z.to_nat mbx) = Some t ->
+           length (mb_bpred t) = 16%nat ->
+           length (mb_bpred (v_left v)) = 16%nat ->
+           modes_ok (mb_bpred t) ->
+           modes_ok (mb_bpred (v_left v)) ->
+           linked data s (v_b v) ->
+           let top4 := map bmode_of_rfc (skipn 12 (mb_bpred t)) in
+           let left4 := map bmode_of_rfc (firstn 4 (mb_bpred (v_left v))) in
+           let
+           '(m, top4', left4', s') := parse_mb_mode h top4 left4 s in
+            (exists (mb : MacroBlock) (lb' : list Z) (d' : Dec),
+               read_macroblock_header v mbx =
+               Ok
+                 (mb,
+                  st v d'
+                    (updZ (v_top v) mbx
+                       {|
+                         mb_bpred := mb_bpred mb;
+                         mb_complexity := mb_complexity t;
+                         mb_luma_mode := mb_luma_mode mb;
+                         mb_chroma_mode := mb_chroma_mode mb;
+                         mb_segmentid := mb_segmentid t;
+                         mb_coeffs_skipped := mb_coeffs_skipped t;
+                         mb_non_zero_coeffs := mb_non_zero_coeffs t
+                       |}) (mb_set_bpred (v_left v) lb')) /\
+               linked data s' d' /\
+               mb_segmentid mb = m_seg m /\
+               mb_coeffs_skipped mb = m_skip m /\
+               mb_non_zero_coeffs mb = false /\
+               mb_complexity mb = repeat 0 9 /\
+               ymode_of_rfc (mb_luma_mode mb) = m_ymode m /\
+               ymode_of_rfc (mb_chroma_mode mb) = m_uvmode m /\
+               m_i4 m = (mb_luma_mode mb =? 4) /\
+               m_imodes m = (if m_i4 m then map bmode_of_rfc (mb_bpred mb) else []) /\
+               map bmode_of_rfc (skipn 12 (mb_bpred mb)) = top4' /\ map bmode_of_rfc (firstn 4 lb') = left4') \/
+            read_macroblock_header v mbx = Err EBitStreamError /\ over_read data s'.
+  Proof. exact VP8_parse_mbheader.read_macroblock_header_refines. Qed.
+
+  (* the quantiser index block of the frame header *)
+  Theorem read_quantization_indices_refines :
+    forall data : list Z,
+           Forall byte data ->
+           C15_model.len data < 2 ^ 63 ->
+           forall (v : Vp8) (s : bstate),
+           length (v_segment v) = 4%nat ->
+           Forall seg_level_ok (v_segment v) ->
+           linked data s (v_b v) ->
+           let
+           '(base_q, s0) := BoolDec.read_literal 7 s in
+            let
+            '(dqy1_dc, s1) := read_opt_signed 4 s0 in
+             let
+             '(dqy2_dc, s2) := read_opt_signed 4 s1 in
+              let
+              '(dqy2_ac, s3) := read_opt_signed 4 s2 in
+               let
+               '(dquv_dc, s4) := read_opt_signed 4 s3 in
+                let
+                '(dquv_ac, s5) := read_opt_signed 4 s4 in
+                 quant_ranges (base_q, dqy1_dc, dqy2_dc, dqy2_ac, dquv_dc, dquv_ac) /\
+                 ((exists d' : Dec,
+                     read_quantization_indices v = Ok (quant_state v (base_q, dqy1_dc, dqy2_dc, dqy2_ac, dquv_dc, dquv_ac) d') /\
+                     linked data s5 d') \/ read_quantization_indices v = Err EBitStreamError /\ over_read data s5).
+  Proof. exact VP8_parse_header.read_quantization_indices_refines. Qed.
+
+  (* ...and the six dequantisation factors it stores are the reference ones (with dequantisation_refine) *)
+  Theorem quantization_factors_are_spec :
+    forall (h : header) (v : Vp8) (d' : Dec) (seg : nat),
+           length (v_segment v) = 4%nat ->
+           h_use_segment h = v_segments_enabled v ->
+           (seg < (if v_segments_enabled v then 4 else 1))%nat ->
+           nthZ (h_seg_quant h) (Z.of_nat seg) 0 = sg_quantizer_level (nth seg (v_segment v) Segment_default) ->
+           h_absolute h = negb (sg_delta_values (nth seg (v_segment v) Segment_default)) ->
+           quant_ranges (h_base_q h, h_dqy1_dc h, h_dqy2_dc h, h_dqy2_ac h, h_dquv_dc h, h_dquv_ac h) ->
+           -127 <= nthZ (h_seg_quant h) (Z.of_nat seg) 0 <= 127 ->
+           let s' :=
+             nth seg (v_segment (quant_state v (h_base_q h, h_dqy1_dc h, h_dqy2_dc h, h_dqy2_ac h, h_dquv_dc h, h_dquv_ac h) d'))
+               Segment_default in
+           let q := segment_quant h (Z.of_nat seg) in
+           sg_ydc s' = q_y1dc q /\
+           sg_yac s' = q_y1ac q /\ sg_y2dc s' = q_y2dc q /\ sg_y2ac s' = q_y2ac q /\ sg_uvdc s' = q_uvdc q /\ sg_uvac s' = q_uvac q.
+  Proof. exact VP8_parse_header.quantization_factors_are_spec. Qed.
+
+  (* loop-filter delta block of the frame header *)
+  Theorem read_loop_filter_adjustments_refines :
+    forall data : list Z,
+           Forall byte data ->
+           C15_model.len data < 2 ^ 63 ->
+           forall (v : Vp8) (s : bstate),
+           length (v_ref_delta v) = 4%nat ->
+           length (v_mode_delta v) = 4%nat ->
+           linked data s (v_b v) ->
+           let
+           '(upd_delta, s1) := BoolDec.read_flag s in
+            let
+            '(rm, s2) :=
+             if isone upd_delta
+             then let '(r, s0) := read_delta_updates [0; 0; 0; 0] s1 [] in let '(m, s2) := read_delta_updates [0; 0; 0; 0] s0 [] in (r, m, s2)
+             else ([0; 0; 0; 0], [0; 0; 0; 0], s1) in
+             (exists d' : Dec,
+                read_loop_filter_adjustments v =
+                Ok (set_b (if isone upd_delta then set_mode_delta (set_ref_delta v (fst rm)) (snd rm) else v) d') /\ 
+                linked data s2 d') \/ read_loop_filter_adjustments v = Err EBitStreamError /\ over_read data s2.
+  Proof. exact VP8_parse_header.read_loop_filter_adjustments_refines. Qed.
+
+  (* segmentation block of the frame header *)
+  Theorem read_segment_updates_refines :
+    forall data : list Z,
+           Forall byte data ->
+           C15_model.len data < 2 ^ 63 ->
+           forall (v : Vp8) (s : bstate),
+           length (v_segment v) = 4%nat ->
+           length (v_segment_tree_nodes v) = 3%nat ->
+           linked data s (v_b v) ->
+           let
+           '(um, (absolute, q, f), probs, s') := spec_segment_block s in
+            (exists (r : bool * option (bool * list Z * list Z) * option (list Z)) (d' : Dec),
+               read_segment_updates v = Ok (segu_state v r d') /\
+               linked data s' d' /\
+               fst (fst r) = um /\
+               match snd (fst r) with
+               | Some (mode, q', f') => mode = absolute /\ q' = q /\ f' = f
+               | None => (absolute, q, f) = (true, [0; 0; 0; 0], [0; 0; 0; 0])
+               end /\ match snd r with
+                      | Some p3 => p3 = probs
+                      | None => probs = [255; 255; 255]
+                      end) \/ read_segment_updates v = Err EBitStreamError /\ over_read data s'.
+  Proof. exact VP8_parse_header.read_segment_updates_refines. Qed.
+
+  (* coefficient probability updates of the frame header (keeps the table invariant read_coefficients needs) *)
+  Theorem update_token_probabilities_refines :
+    forall data : list Z,
+           Forall byte data ->
+           C15_model.len data < 2 ^ 63 ->
+           forall (v : Vp8) (P0 : list (list (list (list Z)))) (s : bstate),
+           tables_ok P0 ->
+           token_nodes_of P0 = Ok (v_token_probs v) ->
+           linked data s (v_b v) ->
+           let
+           '(P1, s') := parse_proba_1 coeffs_update_proba P0 s [] in
+            (exists (tp1 : list (list (list (list TreeNode)))) (d' : Dec),
+               update_token_probabilities v = Ok (set_b (set_token_probs v tp1) d') /\
+               linked data s' d' /\ tables_ok P1 /\ token_nodes_of P1 = Ok tp1) \/
+            update_token_probabilities v = Err EBitStreamError /\ over_read data s'.
+  Proof. exact VP8_parse_header.update_token_probabilities_refines. Qed.
+
+  (* the crate's non-zero flag of a macroblock = the reference's, when the DC factor is not 0 *)
+  Theorem residual_flag_is_block_nonzero :
+    forall (bands : list (list (list Z))) (dc ac first : Z) (tops lefts : list Z) (s : bstate),
+           first = 1 \/ first = 0 /\ dc <> 0 ->
+           let
+           '(bl, _, _, _, _) := blocks_rows bands dc ac first tops lefts s [] [] true in
+            existsb (spec_flag first) bl = existsb block_nonzero bl.
+  Proof. exact VP8_parse_residual.residual_flag_is_block_nonzero. Qed.
+
+  (* read_residual_data for a non-skipped B_PRED macroblock = the reference parse_residuals + inverse DCT of every block: 24 blocks in plane order with the contexts, the three context arrays, the 384 residuals, the non-zero flag *)
+  Theorem read_residual_data_bpred_refines :
+    forall data : list Z,
+           Forall byte data ->
+           C15_model.len data < 2 ^ 63 ->
+           forall (h : header) (m : mbmode) (v : Vp8) (mb t : MacroBlock) (mbx p : Z) (d : Dec) (s : bstate) (seg : Segment),
+           mb_luma_mode mb = 4 ->
+           m_i4 m = true ->
+           h_use_skip h && m_skip m = false ->
+           tables_ok (h_probas h) ->
+           token_nodes_of (h_probas h) = Ok (v_token_probs v) ->
+           0 <= mb_segmentid mb ->
+           nth_error (v_segment v) (Z.to_nat (mb_segmentid mb)) = Some seg ->
+           sg_ydc seg = q_y1dc (segment_quant h (m_seg m)) ->
+           sg_yac seg = q_y1ac (segment_quant h (m_seg m)) ->
+           sg_uvdc seg = q_uvdc (segment_quant h (m_seg m)) ->
+           sg_uvac seg = q_uvac (segment_quant h (m_seg m)) ->
+           i16 (sg_ydc seg) ->
+           i16 (sg_yac seg) ->
+           i16 (sg_uvdc seg) ->
+           i16 (sg_uvac seg) ->
+           coef_bound (sg_ydc seg) (sg_yac seg) <= VP8_arraykernels_aux.dct_bound ->
+           coef_bound (sg_uvdc seg) (sg_uvac seg) <= VP8_arraykernels_aux.dct_bound ->
+           sg_ydc seg <> 0 ->
+           sg_uvdc seg <> 0 ->
+           0 <= p ->
+           nth_error (v_partitions v) (Z.to_nat p) = Some d ->
+           0 <= mbx ->
+           nth_error (v_top v) (Z.to_nat mbx) = Some t ->
+           length (mb_complexity t) = 9%nat ->
+           length (mb_complexity (v_left v)) = 9%nat ->
+           cx_ok (mb_complexity t) ->
+           cx_ok (mb_complexity (v_left v)) ->
+           linked data s d ->
+           let
+           '(res0, top', left', s') := parse_residuals h m (ctx_of (mb_complexity t)) (ctx_of (mb_complexity (v_left v))) s in
+            (exists d' : Dec,
+               read_residual_data v mb mbx p =
+               Ok
+                 (concat (map (fun b : list Z => fst (idct b)) (r_y res0 ++ r_u res0 ++ r_v res0)), r_nonzero res0,
+                  rst v p mbx t d' (c_dc top' :: c_y top' ++ c_u top' ++ c_v top') (c_dc left' :: c_y left' ++ c_u left' ++ c_v left')) /\
+               linked data s' d') \/ read_residual_data v mb mbx p = Err EBitStreamError /\ (exists sx : bstate, over_read data sx).
+  Proof. exact VP8_parse_residual.read_residual_data_bpred_refines. Qed.
+
+  (* read_residual_data for a non-skipped 16x16 macroblock: additionally the Y2 block, its context, the inverse WHT, the DC scatter, Y blocks read from position 1 *)
+  Theorem read_residual_data_i16_refines :
+    forall data : list Z,
+           Forall byte data ->
+           C15_model.len data < 2 ^ 63 ->
+           forall (h : header) (m : mbmode) (v : Vp8) (mb t : MacroBlock) (mbx p : Z) (d : Dec) (s : bstate) (seg : Segment),
+           (mb_luma_mode mb =? Tables.vp8_B_PRED) = false ->
+           m_i4 m = false ->
+           h_use_skip h && m_skip m = false ->
+           tables_ok (h_probas h) ->
+           token_nodes_of (h_probas h) = Ok (v_token_probs v) ->
+           0 <= mb_segmentid mb ->
+           nth_error (v_segment v) (Z.to_nat (mb_segmentid mb)) = Some seg ->
+           sg_ydc seg = q_y1dc (segment_quant h (m_seg m)) ->
+           sg_yac seg = q_y1ac (segment_quant h (m_seg m)) ->
+           sg_y2dc seg = q_y2dc (segment_quant h (m_seg m)) ->
+           sg_y2ac seg = q_y2ac (segment_quant h (m_seg m)) ->
+           sg_uvdc seg = q_uvdc (segment_quant h (m_seg m)) ->
+           sg_uvac seg = q_uvac (segment_quant h (m_seg m)) ->
+           i16 (sg_ydc seg) ->
+           i16 (sg_yac seg) ->
+           i16 (sg_y2dc seg) ->
+           i16 (sg_y2ac seg) ->
+           i16 (sg_uvdc seg) ->
+           i16 (sg_uvac seg) ->
+           coef_bound (sg_ydc seg) (sg_yac seg) <= VP8_arraykernels_aux.dct_bound ->
+           coef_bound (sg_y2dc seg) (sg_y2ac seg) <= VP8_arraykernels_aux.wht_bound ->
+           coef_bound (sg_uvdc seg) (sg_uvac seg) <= VP8_arraykernels_aux.dct_bound ->
+           sg_uvdc seg <> 0 ->
+           0 <= p ->
+           nth_error (v_partitions v) (Z.to_nat p) = Some d ->
+           0 <= mbx ->
+           nth_error (v_top v) (Z.to_nat mbx) = Some t ->
+           length (mb_complexity t) = 9%nat ->
+           length (mb_complexity (v_left v)) = 9%nat ->
+           cx_ok (mb_complexity t) ->
+           cx_ok (mb_complexity (v_left v)) ->
+           linked data s d ->
+           let
+           '(res0, top', left', s') := parse_residuals h m (ctx_of (mb_complexity t)) (ctx_of (mb_complexity (v_left v))) s in
+            (exists d' : Dec,
+               read_residual_data v mb mbx p =
+               Ok
+                 (concat (map (fun b : list Z => fst (idct b)) (r_y res0 ++ r_u res0 ++ r_v res0)), r_nonzero res0,
+                  rst v p mbx t d' (c_dc top' :: c_y top' ++ c_u top' ++ c_v top') (c_dc left' :: c_y left' ++ c_u left' ++ c_v left')) /\
+               linked data s' d') \/ read_residual_data v mb mbx p = Err EBitStreamError /\ (exists sx : bstate, over_read data sx).
+  Proof. exact VP8_parse_residual.read_residual_data_i16_refines. Qed.
+
+  (* where the header parser and libwebp disagree about ACCEPTING a header (none is a valid key frame the crate rejects except the reserved colour-space bit, documented in DESIGN.md 0.2): machine-checked witnesses *)
+  Theorem header_acceptance_refuted :
+    (spec_accepts w_ok = true /\ model_result w_ok = 0) /\
+           (spec_accepts w_colour_space = true /\ model_result w_colour_space = 3) /\
+           (spec_accepts w_width0 = false /\ model_result w_width0 = 0) /\
+           (spec_accepts w_hidden = false /\ model_result w_hidden = 0) /\
+           (spec_accepts w_profile4 = false /\ model_result w_profile4 = 0) /\
+           (spec_accepts w_empty_last = false /\ model_result w_empty_last = 0) /\
+           spec_accepts w_oversized = false /\ model_result w_oversized = 1.
+  Proof. exact VP8_parse_refuted.header_acceptance_refuted. Qed.
+
+End P.
